@@ -10,6 +10,9 @@ pub mod std_gaps {
     pub broadcast axiom fn axiom_ordering_eq(a: core::cmp::Ordering, b: core::cmp::Ordering)
         ensures #[trigger] PartialEqSpec::eq_spec(&a, &b) == (a == b);
 
+    /// a Vec never holds more than usize::MAX elements (what Vec::len's usize result implies)
+    pub broadcast axiom fn axiom_vec_len_fits<T>(v: &Vec<T>)
+        ensures #[trigger] v@.len() <= usize::MAX;
     pub assume_specification<T>[ core::mem::replace ](dest: &mut T, src: T) -> (r: T)
         ensures r == *old(dest), *final(dest) == src;
     pub assume_specification<T, U, F: FnOnce(T) -> U>[ Option::<T>::map_or ](o: Option<T>, default: U, f: F) -> (r: U)
